@@ -1127,6 +1127,8 @@ class ConnectionBase(object):
         pkt_type = PacketType.UNKNOWN
         # MAX_PAYLOAD_SIZE already excludes the overhead of a single message
         max_size = Packet.MAX_PAYLOAD_SIZE + Packet.MESSAGE_OVERHEAD_1
+        # the packet header stores the number of messages in a single byte
+        max_count = 255
         msgs = [] # messages (seq, typ, msg) to include in this packet
         current_msg_length = 0 # sum of length of messages in msgs, excluding overhead
 
@@ -1146,7 +1148,7 @@ class ConnectionBase(object):
                 # calculate the size of the packet so far + this message
                 size = len(msg.payload) + Packet.overhead(1+len(msgs)) + current_msg_length
                 # if the message fits add it to the packet
-                if size <= max_size:
+                if size <= max_size and len(msgs) < max_count:
                     del self.pending_retry_msg[msgseq]
                     msgs.append(msg)
                     current_msg_length += len(msg.payload)
@@ -1163,7 +1165,7 @@ class ConnectionBase(object):
             # calculate the size of the packet so far + this message
             size = len(pending.payload) + Packet.overhead(1+len(msgs)) + current_msg_length
             # if the message fits add it to the packet
-            if size <= max_size:
+            if size <= max_size and len(msgs) < max_count:
                 self.outgoing_messages.pop(idx)
                 msgs.append(pending)
                 current_msg_length += len(pending.payload)
